@@ -27,7 +27,7 @@ def batch(exe, tier, base, start, stride, count, tag):
     log = os.path.join(simdrv.RUN_DIR, "selftest-%s-%d-%d" % (tag, start, os.getpid()))
     cmd = [exe, "batch", "--tier", tier, "--base", str(base), "--start", str(start), "--stride", str(stride),
            "--count", str(count), "--samples", "0", "--recheck", "0", "--runlog", log]
-    return subprocess.Popen(cmd, stdout=subprocess.DEVNULL, stderr=subprocess.DEVNULL, env=simdrv.harness_env()), log
+    return subprocess.Popen(cmd, stdout=subprocess.DEVNULL, stderr=subprocess.DEVNULL, env=simdrv.harness_env(exe=exe)), log
 
 
 def read_log(path):
